@@ -793,15 +793,14 @@ def _facts(parents, calls, extra_scalars=()):
     import hmac
     F = {"hmac": [], "pub": [], "add": [], "h160": []}
     seen = set()
+    pubs = {}
 
     def pub(kb):
         k = int.from_bytes(kb, "big")
-        if 0 < k < D.N and ("p", kb) not in seen:
-            seen.add(("p", kb))
-            K = D.ser_p(D.Evaluator.MEMO.get(k) or D.Evaluator().mulG(k))
-            F["pub"].append([list(kb), list(K)])
-            return K
-        return None
+        if 0 < k < D.N and kb not in pubs:
+            pubs[kb] = D.ser_p(D.Evaluator().mulG(k))
+            F["pub"].append([list(kb), list(pubs[kb])])
+        return pubs.get(kb)
 
     def h160(K):
         if ("h", K) not in seen:
@@ -1003,8 +1002,12 @@ def run_traces(ctx, count, max_events):
     for ch in split(traces, max(1, len(traces) // 400)):
         rej = validate_traces(ctx, ch)
         ctx.traces += len(ch) - len(rej)
-        for i in rej:
+        for j, i in enumerate(rej):
             t = ch[i]
+            if j >= 3:          # locating the event costs a TLC run per trace: do it for the first few only
+                ctx.fail("C09|trace|rejected", "recorded pycoin session is not a session of BIP32.tla (%d more rejected traces)" % (len(rej) - 3),
+                         {"ops": [x["op"] for x in t["ev"]]})
+                break
             k = first_unexplained(ctx, t)
             e = t["ev"][k]
             ctx.fail("C09|trace|op=%s|res=%s" % (e["op"], "refused" if e.get("res") == 0 else ("raises" if e.get("res") == -1 else "key")),
@@ -1024,29 +1027,102 @@ def make_seeds(ctx, k):
     return VEC_SEEDS + [bytes(rnd.randrange(256) for _ in range(lens[i % len(lens)])) for i in range(k)]
 
 
+# ------------------------------------------------------------------ binding self-tests
+def selftests(ctx, first_session, traces):
+    from pycoin.symbols.btc import network as BTC
+    # (1) spec -> code: corrupt one expected value of one replay case
+    if first_session is not None:
+        rec = first_session
+        good, bad = [], []
+        _run_session(rec, VEC_SEEDS[0], BTC, good)
+
+        def corrupt(fields):
+            o = max(fields)
+            ch = bytearray(fields[o]["chain"])
+            ch[7] ^= 1
+            fields[o] = dict(fields[o], chain=bytes(ch))
+        _run_session(rec, VEC_SEEDS[0], BTC, bad, corrupt=corrupt)
+        ctx.selftest("replay_rejects_corrupted_expectation", not good and len(bad) > 0)
+    # (2) code -> spec: corrupt one field of one recorded trace, each in a different way
+    if traces:
+        base = next(t for t in traces if sum(1 for e in t["ev"] if e["op"] == "derive" and e["res"] > 0) >= 2
+                    and any(e["op"] == "text" for e in t["ev"]))
+        muts = [copy.deepcopy(base) for _ in range(5)]
+
+        def nth(t, op, pred=lambda e: True):
+            return next(e for e in t["ev"] if e["op"] == op and pred(e))
+        e = nth(muts[0], "derive", lambda e: e["res"] > 0)
+        e["node"]["chain"][0] ^= 1                              # a wrong chain code
+        e = nth(muts[1], "derive", lambda e: e["res"] > 0)
+        e["node"]["depth"] += 1                                 # depth off by one
+        e = nth(muts[2], "derive", lambda e: e["res"] > 0 and e["facts"]["hmac"])
+        m = e["facts"]["hmac"][0][1]
+        m[-4:] = m[-4:][::-1]                                    # the HMAC'd index bytes in the other order
+        e["facts"]["hmac"][0][2] = list(__import__("hmac").new(bytes(e["facts"]["hmac"][0][0]), bytes(m), hashlib.sha512).digest())
+        e = nth(muts[3], "text")
+        e["blob"][4] ^= 1                                       # depth byte of the serialisation
+        e = nth(muts[4], "derive", lambda e: e["res"] > 0)
+        e["node"]["pfp"][3] ^= 1                                # parent fingerprint
+        rej = validate_traces(ctx, [base] + muts)
+        ctx.selftest("trace_rejects_corrupted_field", rej == [1, 2, 3, 4, 5])
+
+
+def replay(ctx, obj):
+    print(json.dumps(obj, indent=1)[:6000])
+    print("(re-run ./check C09; the detail above holds the seed, the network and the calls of the failing case)")
+
+
 def run(ctx):
     q = ctx.quick
-    ctx.rule = "see notes/C09.md"
+    ctx.rule = ("model: BIP32.tla lemmas on every index path of depth <= 3 over boundary child values x {normal, hardened}; "
+                "BIP32Session on every order of <= MaxOps calls; Subpaths on every token string; ExtKeyText on every network x family. "
+                "replay: every TLC-printed path / session / range string / (network, family, form, key) / Electrum chain, evaluated for "
+                "several seeds and executed on pycoin. distinct_nontrivial = distinct (depth, index class) path classes + session "
+                "call classes (op, wanted form, hardened, first/repeated/other-flags) + range-string feature classes + "
+                "(network, family, form) text cases + Electrum (n, c) chains + trace event classes")
+    ctx.assumptions += [
+        "HMAC-SHA512, SHA256, RIPEMD160 from hashlib/hmac are the trusted base; equal terms stand for equal digests (no collisions)",
+        "secp256k1 arithmetic by a 30-line affine reference (cross-checked against pycoin's generator both ways); the curve law itself is C02's subject",
+        "BIP32's 'IL >= n or child key 0: use the next index' branch (probability < 2^-127) is not modelled; the evaluator asserts it is not hit",
+        "Base58Check is C11's subject: here an independent 10-line encoder/decoder",
+        "subkey(as_private=True) on a public-only parent with a normal index is left unspecified (the property only demands refusal of hardened)",
+        "strings outside the path-range grammar (and leading zeros for Electrum, which hashes the decimal text) carry no demand",
+        "TLC/SANY, CPython"]
     from pycoin.networks.registry import network_for_netcode
     _G["versions"] = {s: (network_for_netcode(s).parse._bip32_prv_prefix, network_for_netcode(s).parse._bip32_pub_prefix)
                       for s in ("BTC", "XTN", "LTC", "DOGE")}
+    # 0/2. trusted base and ground truth first
     if _only(ctx, "curve"):
         check_reference_curve(ctx)
     if _only(ctx, "truth"):
         ground_truth(ctx)
+    # 1. lemmas that have no replay attached (the other lemma sets are checked in the replay runs below)
+    if _only(ctx, "model"):
+        ctx.tlc("MC_BIP32Session", "MC_BIP32Session_q" if q else "MC_BIP32Session_t", workers=8, timeout=2400)
+        for mode in ("noHard", "noWant"):
+            r = ctx.tlc("MC_BIP32Session", "MC_BIP32Session_" + mode, workers=4, expect_ok=False, count=False, timeout=600)
+            ctx.selftest("model_rejects_memo_keyed_" + mode, (not r.ok) and r.violated == "ResultIsPure")
     seeds = make_seeds(ctx, 4 if q else 14)
+    first_session = None
+    traces = None
+    # 3. spec -> code
     if _only(ctx, "paths") or _only(ctx, "text") or _only(ctx, "ranges"):
-        replay_paths(ctx, "MC_BIP32_rpq", seeds, ["BTC", "XTN", "LTC", "DOGE"])
+        replay_paths(ctx, "MC_BIP32_rpq" if q else "MC_BIP32_rpt", seeds, ["BTC", "XTN", "LTC", "DOGE"])
     if _only(ctx, "sessions"):
-        replay_sessions(ctx, "MC_BIP32Session_rpq", seeds[1:2])
+        for cfg in (["MC_BIP32Session_rpq"] if q else ["MC_BIP32Session_rpq", "MC_BIP32Session_rpt1", "MC_BIP32Session_rpt2"]):
+            first_session = replay_sessions(ctx, cfg, seeds[1:2] if q else seeds[1:3]) or first_session
     if _only(ctx, "ranges"):
         _G["tree_for_ranges"] = eval_paths(_G["path_recs"], seeds[0])
         replay_ranges(ctx, "MC_Subpaths_rpq" if q else "MC_Subpaths_t", seeds[0], not q)
     if _only(ctx, "text"):
-        replay_text(ctx, seeds[:2] if q else seeds[:4])
+        replay_text(ctx, seeds[:2] if q else seeds[:5])
     if _only(ctx, "electrum"):
         rnd = random.Random(ctx.seed * 104729 + 9)
         est = ["%032x" % rnd.getrandbits(128) for _ in range(2 if q else 6)]
         replay_electrum(ctx, "MC_Electrum_q" if q else "MC_Electrum_t", est)
+    # 4. code -> spec
     if _only(ctx, "traces"):
-        run_traces(ctx, 150 if q else 1200, 16 if q else 24)
+        traces = run_traces(ctx, 150 if q else 1500, 16 if q else 26)
+    if _only(ctx, "selftest") and (first_session is not None or traces):
+        selftests(ctx, first_session, traces)
+    ctx.exhaustive = True
